@@ -233,6 +233,16 @@ def cases(tier, rng):
                         yield {"op": "entries", "fmt": fmt, "header": header, "ents": ents, "gz": gz, "nl": nl, "crlf": crlf,
                                "lazy": lazy, "k": k, "longest": longest, "keep": (k + len(ents)) % 2 == 0}
 
+    # --- files larger than one chunk at the chunk sizes people actually use (1 MiB and the 5,000,000-byte default): buffers of
+    #     earlier chunks must still be intact when they are looked at after later reads
+    for fmt in (("fastq", "bed6", "fasta") if big else (rng.choice(["fastq", "bed6"]),)):
+        base, header = make_entries(fmt, 40, [90, 130, 200], rng)
+        per = len("".join(base))
+        for k, total in (((1 << 20, 2_400_000), (5_000_000, 11_000_000)) if big else ((1 << 20, 2_400_000),)):
+            ents = base * (total // per + 1)
+            for gz, lazy in (((False, False), (False, True), (True, False)) if big else ((False, rng.random() < 0.5),)):
+                yield {"op": "entries", "fmt": fmt, "header": header, "ents": ents, "gz": gz, "nl": True, "crlf": False, "lazy": lazy, "k": k,
+                       "longest": max(len(e) for e in base) + 2, "keep": rng.random() < 0.5}
     # --- the documented max_chunk_size keyword: the read may refuse (no complete entry within the cap) but a read that
     #     completes must still deliver every entry
     for fmt in fmts:
